@@ -148,6 +148,50 @@ def run_real(sp, nmax, thetas, active):
         return "SMRTError"
 
 
+def check_angle_array(sp_args, nmax, thetas, active):
+    """angles handed over as a float ndarray that the caller goes on using (edits in place) after building the sensor: the sensor keeps
+    the angles it was built with - coordinates and values are those of the same request made with a list"""
+    from smrt import make_snowpack, make_model, sensor_list
+    arr = np.array(thetas, dtype=float)
+    sensor = sensor_list.active(13e9, arr) if active else sensor_list.passive(37e9, arr)
+    arr += 5.0                                  # the caller's array moves on (a sweep)
+    m = make_model("iba", "dort", rtsolver_options=dict(n_max_stream=nmax))
+    got = m.run(sensor, make_snowpack(**sp_args))
+    want = run_real(make_snowpack(**sp_args), nmax, list(thetas), active)
+    if isinstance(want, str):
+        return None
+    dim = "theta_inc" if active else "theta"
+    gc, wc = [float(v) for v in got.data.coords[dim].values], [float(v) for v in want.data.coords[dim].values]
+    if gc != wc:
+        return ("angle-array-aliased", f"sensor built from an ndarray of angles {list(thetas)} that is edited afterwards: result coordinates {gc}", gc, wc)
+    if not np.array_equal(np.asarray(got.data.values), np.asarray(want.data.values), equal_nan=True):
+        return ("angle-array-aliased", f"sensor built from an ndarray of angles {list(thetas)} that is edited afterwards: values differ from the list request",
+                float(np.nanmax(np.abs(np.asarray(got.data.values) - np.asarray(want.data.values)))), "identical")
+    return None
+
+
+def check_sensor_pairs(sp_args, nmax, sets, active):
+    """a list of sensors with different angle sets paired with a list of snowpacks: every value sits at its own sensor's angles"""
+    from smrt import make_snowpack, make_model, sensor_list
+    m = make_model("iba", "dort", rtsolver_options=dict(n_max_stream=nmax))
+    sens = [(sensor_list.active(13e9, list(a)) if active else sensor_list.passive(37e9, list(a))) for a in sets]
+    sps = [make_snowpack(**sp_args) for _ in sets]
+    res = m.run(sens, sps)
+    dim = "theta_inc" if active else "theta"
+    for i, a in enumerate(sets):
+        one = run_real(make_snowpack(**sp_args), nmax, list(a), active)
+        for t in a:
+            try:
+                g = np.asarray(res.data.sel(snowpack=i).sel(**({"theta_inc": t, "theta": t} if active and "theta" in res.data.dims else {dim: t})).values)
+            except KeyError:
+                return ("sensor-pairs", f"sensors with angles {sets} paired with snowpacks: the angle {t} of sensor {i} is not in the result", "KeyError", "a value")
+            w = np.asarray(one.data.sel(**({"theta_inc": t, "theta": t} if active and "theta" in one.data.dims else {dim: t})).values)
+            if not np.allclose(g, w, rtol=1e-12, atol=0, equal_nan=True):
+                return ("sensor-pairs", f"sensors with angles {sets} paired with snowpacks: value of sensor {i} at {t} deg differs from its own run",
+                        float(np.nanmax(np.abs(g - w))), "equal")
+    return None
+
+
 def check_scenario(sp_args, nmax, thetas, active):
     """returns None or (key, what, observed, required)"""
     from smrt import make_snowpack
@@ -219,6 +263,26 @@ def oracle(ctx, hints, effort):
         if r is not None:
             key = ("active:" if active else "passive:") + r[0]
             findings.setdefault(key, Finding(key, r[1], {"sp": spa, "nmax": nmax, "thetas": thetas, "active": active}, r[2], r[3]))
+        if it < 2 or effort != "routine":
+            evals += 2
+            try:
+                r = check_angle_array(spa, nmax, [t for t in thetas if t + 5.0 < last][:3] or thetas[:1], active)
+            except Exception as e:  # noqa
+                r = ("angle-array-aliased", f"sensor built from an ndarray of angles raises {type(e).__name__}: {str(e)[:100]}", type(e).__name__, "a result")
+            if r is not None:
+                key = ("active:" if active else "passive:") + r[0]
+                findings.setdefault(key, Finding(key, r[1], {"sp": spa, "nmax": nmax, "thetas": thetas, "active": active, "kind": "array"}, r[2], r[3]))
+            a1 = sorted(t for t in thetas if t > 0)[:2]
+            if len(a1) == 2:
+                sets = [a1, [a1[1], round(0.5 * (a1[1] + last), 3)]]
+                evals += 3
+                try:
+                    r = check_sensor_pairs(spa, nmax, sets, active)
+                except Exception as e:  # noqa
+                    r = ("sensor-pairs", f"sensors with angles {sets} paired with snowpacks raise {type(e).__name__}: {str(e)[:100]}", type(e).__name__, "a result")
+                if r is not None:
+                    key = ("active:" if active else "passive:") + r[0]
+                    findings.setdefault(key, Finding(key, r[1], {"sp": spa, "nmax": nmax, "sets": sets, "active": active, "kind": "pairs"}, r[2], r[3]))
         # beyond the last direction: SMRTError, never a number
         evals += 1
         res = run_real(make_snowpack(**spa), nmax, [min(89.9, last + 0.5)] + thetas[:1], active)
@@ -235,5 +299,11 @@ def replay(inp, rp=None):
     if inp.get("beyond"):
         res = run_real(make_snowpack(**inp["sp"]), inp["nmax"], inp["thetas"], inp["active"])
         return None if isinstance(res, str) else Finding("?", "extrapolated", inp, "value", "SMRTError")
-    r = check_scenario(inp["sp"], inp["nmax"], inp["thetas"], inp["active"])
+    if inp.get("kind") == "array":
+        last, _ = last_stream_angle(inp["sp"], inp["nmax"], inp["active"])
+        r = check_angle_array(inp["sp"], inp["nmax"], [t for t in inp["thetas"] if t + 5.0 < last][:3] or inp["thetas"][:1], inp["active"])
+    elif inp.get("kind") == "pairs":
+        r = check_sensor_pairs(inp["sp"], inp["nmax"], inp["sets"], inp["active"])
+    else:
+        r = check_scenario(inp["sp"], inp["nmax"], inp["thetas"], inp["active"])
     return Finding("?", r[1], inp, r[2], r[3]) if r else None
